@@ -38,12 +38,13 @@ def run(tier: str, seed: int, rep: Report, model: Model) -> dict:
     rep.rule = ("ordered field lists (optional fields, markers, expressions, plain fields) with values that are arrays of the declared library or "
                 "None for optional fields, conforming or with one / several faults, rendered in the four forms with shuffled keyword order; "
                 "distinct = distinct (fields, values); non-trivial = at least two annotated fields")
-    rep.rule += '; plus field lists with tuple-typed fields rendered as function, dataclass and NamedTuple'
+    rep.rule += '; plus field lists with tuple-typed fields rendered as function, dataclass and NamedTuple; half of the faulty cases after an earlier conforming use of the same class / function'
     bases = []
     tries = 0
     while len(bases) < n and tries < n * 6:
         tries += 1
         c = GC.gen_case(rnd, with_provider=0, with_ret=0, tuples=0, optionals=0.3, plain=0.2)
+        conforming = {k_: v for k_, v in c["args"].items()}
         k = rnd.random()
         nf = 0
         if k > 0.35:
@@ -56,6 +57,9 @@ def run(tier: str, seed: int, rep: Report, model: Model) -> dict:
         for p in c["params"]:
             if p["hint"]["k"] == "plain":
                 c["args"][p["name"]] = {"k": "int"}
+                conforming[p["name"]] = {"k": "int"}
+        if nf and rnd.random() < 0.5:
+            c["warm"] = conforming     # the same class / function has been used once before, with the conforming values
         if in_domain(c):
             bases.append(c)
     # tuple-typed fields (plain and annotated elements in any position, optional elements): the three forms dltype decorates itself
@@ -90,7 +94,7 @@ def run(tier: str, seed: int, rep: Report, model: Model) -> dict:
             order = list(names)
             rnd.shuffle(order)
             cases.append({"form": form, "fields": [{"name": p["name"], "hint": p["hint"]} for p in c["params"]], "values": dict(c["args"]),
-                          "order": order, "npos": 0 if form == "pyd" else rnd.randrange(len(names) + 1)})
+                          "order": order, "npos": 0 if form == "pyd" else rnd.randrange(len(names) + 1), **({"warm": c["warm"]} if "warm" in c else {})})
     answers = model.ask_many([forms.form_case_sx(c) for c in cases])
     worker = ImplWorker("harness.ctxrun")
     try:
